@@ -252,6 +252,22 @@ def discharge(ctx: Ctx, ob: Obligation, use_cvc5_always=False, cheap=False) -> d
             verdict = "disagree"
         elif use_cvc5_always:
             rec["cvc5"] = r2
+    if verdict == "unsat" and use_cvc5_always:
+        # thorough tier: the proof must be reproducible under other instantiation orders (two more random seeds);
+        # a `sat` answer there is a disagreement of the solver with itself and is reported as a checker problem
+        stable = []
+        for seed in (11, 23):
+            s3 = _mk_solver(ctx, ctx.timeout_ms)
+            s3.set("random_seed", seed)
+            s3.set("smt.random_seed", seed)
+            for h in ob.hyps:
+                s3.add(h)
+            s3.add(z3.Not(ob.goal))
+            stable.append(str(guarded_check(s3, ctx.timeout_ms)))
+        rec["reproved_with_other_seeds"] = stable
+        if "sat" in stable:
+            rec["solver_disagreement"] = {"z3": "unsat", "z3-other-seed": "sat"}
+            verdict = "disagree"
     rec["verdict"] = {"unsat": "discharged", "sat": "failed", "unknown": "unknown", "disagree": "disagree"}[verdict]
     if verdict == "sat" and str(r) == "sat":
         try:
